@@ -34,7 +34,10 @@ def in_box(p, c, d):
 # ================================================================================================== C01
 def case_C01(seed, max_trace=4):
     rnd = _rnd(seed, 'C01')
-    case = U.gen_case(rnd, ne=False, width=0, avoid_goingback=False, trace_len=rnd.choice([1, 2, 3, 3, max_trace]))
+    case = U.gen_case(rnd, ne=False, width=0, avoid_goingback=False, trace_len=rnd.choice([1, 2, 3, 3, max_trace]),
+                      graph_family=rnd.choice([None, None, 'merge', 'oneway']))
+    if rnd.random() < 0.5:
+        case['cfg']['min_prob_norm'] = rnd.choice([0.3, 0.5, 0.6, 0.7])
     U.quiet()
     mp, mt, (states, idx) = run_match(case)
     view = O.View(graph=case['graph'])
@@ -193,15 +196,31 @@ def case_C03(seed):
     case = U.gen_case(rnd)
     U.quiet()
     unique = rnd.random() < 0.5
-    mp, mt, res = run_match(case, unique=unique)
-    bad = check_alignment(mt, res, case['trace'], unique)
-    viol = []
-    if bad:
-        viol.append(('C03:' + bad[0].split(':')[0][:60], f"match(unique={unique}) -> {res[1]}, {res[0]}: " + ' | '.join(bad),
-                     {'case': U.case_repr(case), 'unique': unique, 'result': [str(res[0]), res[1]], 'failed': bad,
-                      'lattice_best': [[str(k) for k in m.key] for m in (mt.lattice_best or [])]}))
-    nt = bool(res[0]) and (res[1] < len(case['trace']) - 1 or any(m.obs_ne for m in mt.lattice_best))
-    return {'nontrivial': nt, 'violations': viol, 'sample': U.case_repr(case)}
+    mp = U.make_map(case['graph'])
+    mt = U.make_matcher(mp, case['cfg'])
+    ops = gen_history(rnd, case, allow_cwd=False) if rnd.random() < 0.6 else [('match', len(case['trace']))]
+    viol, done, nt = [], [], False
+    for op in ops:
+        tr = case['trace']
+        try:
+            if op[0] == 'match':
+                res = mt.match(tr[:op[1]], unique=unique)
+            elif op[0] == 'extend':
+                res = mt.match(tr[:op[1]], unique=unique, expand=True)
+            else:
+                res = mt.increase_max_lattice_width(op[1], unique=unique)
+        except Exception:
+            break
+        done.append(op)
+        bad = check_alignment(mt, res, mt.path, unique)
+        if res[0] and (res[1] < len(mt.path) - 1 or any(m.obs_ne for m in mt.lattice_best) or len(done) > 1):
+            nt = True
+        if bad:
+            viol.append(('C03:' + bad[0].split(':')[0][:60], f"after {done} (unique={unique}) -> {res[1]}, {res[0]}: " + ' | '.join(bad),
+                         {'case': U.case_repr(case), 'unique': unique, 'ops': done, 'result': [str(res[0]), res[1]], 'failed': bad,
+                          'lattice_best': [[str(k) for k in m.key] for m in (mt.lattice_best or [])]}))
+            break
+    return {'nontrivial': nt, 'violations': viol, 'sample': {'case': U.case_repr(case), 'ops': ops}}
 
 
 # ================================================================================================== C04
@@ -301,7 +320,8 @@ def case_C06(seed):
     rnd = _rnd(seed, 'C06')
     case = U.gen_case(rnd, width=0, avoid_goingback=False, trace_kind=rnd.choice(['sparse', 'sparse', 'walk', None]),
                       n=rnd.choice([4, 5, 5]), graph_family=rnd.choice(['line', 'chain', 'oneway', 'cycle', 'grid', None]),
-                      trace_len=rnd.choice([2, 3, 3, 4]))
+                      trace_len=rnd.choice([2, 3, 3, 4]), family=rnd.choice(['simple', 'simple', 'distance']),
+                      only_edges=rnd.choice([False, False, True]))
     U.quiet()
     out = {}
     for ne in (False, True):
@@ -522,8 +542,13 @@ def transform_case(case, kind, rnd, k=None):
     g = c['graph']
     if kind == 'relabel':
         keys = list(g.keys())
-        if isinstance(keys[0], int):
+        style = rnd.choice(['str', 'int0', 'int100', 'strempty'])
+        if style == 'str' or (style == 'strempty' and False):
             new = [f"n{v}" for v in keys]
+        elif style == 'int0':
+            new = list(range(0, len(keys)))                  # includes the label 0
+        elif style == 'strempty':
+            new = [''] + [f"s{i}" for i in range(1, len(keys))]    # includes the empty string
         else:
             new = list(range(100, 100 + len(keys)))
         rnd.shuffle(new)
